@@ -394,7 +394,7 @@ PROPS["C18"]["claim"] += (" A name only the build log knows (removed step's outp
 
 PROPS["C03"]["claim"] += (" THE ROUND TRIP (build_after_successful_build_does_nothing, Lemmas/SchedDone + WorkSettled + WorldSettled), proved for "
     "projects WITHOUT discovered dependencies (no depfile/deps, no rewritten inputs, no dependency lists in the log) on acyclic graphs: if an "
-    "invocation succeeds without reloading, marked every step it wanted, the files those steps name exist afterwards and the manifest loads to "
+    "invocation succeeds without reloading, the files the steps it wanted name exist afterwards and the manifest loads to "
     "the same graph, the next invocation with the same arguments changes nothing, starts nothing and reports 0 tasks - for all scheduling "
     "behaviours of both invocations. Carried by a joint scheduler/environment invariant (JS) through Work::run: generic lemma runLoop_done "
     "(an invariant that depends on the scheduler only through the Done set and is kept by check/adopt/success under 'the step is not Done, all "
@@ -403,3 +403,43 @@ PROPS["C03"]["claim"] += (" THE ROUND TRIP (build_after_successful_build_does_no
 PROPS["C02"]["claim"] += (" DONE STEPS ARE SETTLED (done_steps_are_settled; same restriction): at the end of a successful run::build the stat cache is "
     "truthful except about outputs of steps not Done, every record appended belongs to a Done step, dirtying inputs of Done steps come from Done "
     "steps, and the signature the next start-up attaches to a Done step whose files exist is the manifest of the files as they are now.")
+
+PROPS["C07"]["claim"] += (" EVERY HISTORY (survives_every_history / survives_from_scratch): a small machine for what invocations do to the file "
+    "(read; keep the intact prefix or write a fresh signature; append complete records; possibly die after k bytes of a record or of the "
+    "signature) - for ANY sequence of such invocations the file is never refused, always has the shape 'complete records + strict prefix of "
+    "one more record (or of the signature)', and the next start-up loads exactly the records whose append completed, in order.")
+PROPS["C10"]["claim"] += (" `pool` blocks now have their statement-level theorem too (pool_read_as_written: name and the depth its `depth` binding evaluates to).")
+PROPS["C18"]["claim"] += (" THE OTHER HALF (requested_closure_is_marked, Lemmas/SchedComplete): when run::build reports success every build a requested file "
+    "needs through ordering OR validation inputs has left Unknown - joint induction over want_file / want_build / the two input loops with the invariant "
+    "'every marked build not inside its own validation loop has the producers of all its inputs marked' (re-entrant visits included), and Work::run never "
+    "un-marks a build (runLoop_mono). With only_requested_closure: exactly the requested closure.")
+
+PROPS["C09"]["claim"] += (" ACROSS INVOCATIONS, FOR EVERY LOG (Lemmas/WorkDisc): start-up (applyLog, records WITH dependency lists) only interns source "
+    "files and attaches to each step exactly the dependency list and signature of the LATEST record attributed to it "
+    "(remembered_by_every_later_invocation, nothing_remembered_without_record); a success's record is the latest until the next one "
+    "(latest_success_wins, success_writes_its_report); a remembered dependency that is missing or whose mtime differs from the recorded "
+    "stamp means the step is not found clean, at any point of any invocation with a truthful stat cache (changed_dependency_is_dirty); "
+    "remembered source files can never make the check fail (remembered_sources_never_fail).")
+PROPS["C09"]["modes"] = PROPS["C09"]["modes"] + ["showinc"]
+PROPS["C09"]["nontrivial"]["showinc"] = _exec_nontrivial
+PROPS["C09"]["monitors"] = PROPS["C09"]["monitors"] + ["notesAllReported", "noNoteShown"]
+PROPS["C09"]["rule"] += (" || the text functions of task.rs alone (mode showinc): extract_showincludes / find_last_line on every string of up to 5 (quick) / 6 tokens over "
+    "{a, LF, CR, blank, 'Note: including file: ', 'Note: '} and 3000 / 60000 random compiler outputs whose notes name files with arbitrary bytes "
+    "(Latin-1, invalid UTF-8, multi-byte), CR LF / LF ends; monitor notesAllReported: the reported list is exactly the notes' payloads.")
+PROPS["C12"]["claim"] += (" PARSE-ERROR OFFSETS (parse_errors_are_rendered): every error the manifest parser returns carries an offset inside the "
+    "buffer (<= its size), so the text shown is format_parse_error inside the range format_total covers.")
+PROPS["C12"]["modes"] = PROPS["C12"]["modes"] + ["diag"]
+PROPS["C12"]["needs_n2bin"] = True
+PROPS["C12"]["nontrivial"]["diag"] = (lambda case, impl: True)
+PROPS["C12"]["monitors"] = PROPS["C12"]["monitors"] + ["binNoPanic", "binDiagnostic"]
+PROPS["C12"]["rule"] += (" || the real binary (mode diag): 12 positions in which n2 quotes a string of the manifest or the command line in a diagnostic "
+    "or a status line (output produced twice, output repeated in one statement, deps, pool, include, subninja, missing input, command line target, "
+    "description, command, depfile, rule name) x 54 strings that are awkward to format (truncated / overlong / surrogate / out-of-range UTF-8, lone "
+    "continuation bytes, 0xff, quotes, backslash, control and non-printable characters; alone, after 'out', before 'x'; thorough: + 400 random "
+    "concatenations); expected: `n2: error:` and exit 1 where the input is in error, the ordinary outcome otherwise, never a panic (F15).")
+PROPS["C12"]["claim"] += (" The diagnostics that quote a manifest string (F15 repaired: `{:?}` of a String ending inside a multi-byte sequence panicked) "
+    "are not modelled - Rust's formatting machinery is outside the model - and are checked on the real binary only (mode diag).")
+PROPS["C17"]["modes"] = PROPS["C17"]["modes"] + ["sched"]
+PROPS["C17"]["nontrivial"]["sched"] = _sched_nontrivial
+PROPS["C17"]["monitors"] = PROPS["C17"]["monitors"] + ["exitOk", "stopsOnInterrupt", "traceSpec"]
+PROPS["C17"]["rule"] += " || 'a failed regeneration stops everything' at scheduler level (manifest-generator steps with prerequisites, scripted failures): " + SCHED_RULE
